@@ -22,11 +22,11 @@
  *                                            (arbitrary; (re)chosen by every handshake call; constant afterwards:
  *                                            renegotiation / post-handshake auth are not enabled by XCM)
  *   xv_ssl_err, xv_err_queue                 classification SSL_get_error()/ERR_peek_error() give for the LAST failed
- *                                            I/O call; xv_ssl_last_ret its return value
+ *                                            I/O call; xv_ssl_last_ret its return value; xv_ssl_close_seen see A5
  *   xv_sw_* / xv_sr_*                        SSL_write / SSL_read: calls, last SSL, buffer, num, result
  *   xv_x509_refs                             certificate references handed out and not yet X509_free()d
  * The plaintext byte stream is the shared ghost stream of prelude.h (xv_tx_off/xv_tx_k/xv_tx_k_set, xv_rx_off/xv_rx_k/
- * xv_rx_eof, xv_lower_dead): SSL_write appends the accepted bytes, SSL_read delivers the next ones.
+ * xv_rx_eof): SSL_write appends the accepted bytes, SSL_read delivers the next ones.
  *
  * ASSUMPTIONS about OpenSSL made here (all TRUSTED, none proved):
  *  A1 SSL_get_error() after a failed call is one of SSL, WANT_READ, WANT_WRITE, SYSCALL, ZERO_RETURN.  The other codes
@@ -41,8 +41,10 @@
  *     errno untouched (ssl/ssl_lib.c, SSL_get_error()).
  *  A4 SSL_write accepts 1..num bytes or nothing (SSL_MODE_ENABLE_PARTIAL_WRITE); what OpenSSL retains of a refused
  *     write (WANT_WRITE) is NOT modelled (DESIGN section 6, F19).
- *  A5 The connection is unusable after SSL_ERROR_SSL, ZERO_RETURN or SYSCALL (other than a spurious EINPROGRESS from
- *     the transport): the model sets xv_lower_dead.
+ *  A5 "The peer's close was seen" (xv_ssl_close_seen, for the last failed call) means: close_notify received
+ *     (ZERO_RETURN) or the transport under the BIO reported EOF / EPIPE (SYSCALL, empty queue, errno 0 / EPIPE).
+ *  A6 The verification verdict (SSL_get_verify_result, a long) is an X509_V_* code, i.e. fits an int: OpenSSL copies it
+ *     from X509_STORE_CTX.error (an int); XCM never calls SSL_set_verify_result().  verify_peer_cert() narrows it to int.
  */
 #ifndef XV_ENV_SSL_H
 #define XV_ENV_SSL_H
@@ -71,10 +73,11 @@ long xv_ssl_set_mode_calls; long xv_ssl_mode;
 long xv_hs_calls; const SSL *xv_hs_ssl; _Bool xv_hs_connect; int xv_hs_ret;
 _Bool xv_ssl_hs_done;
 _Bool xv_ssl_peer_cert; long xv_ssl_verify_result;
-int xv_ssl_err; unsigned long xv_err_queue; int xv_ssl_last_ret;
+int xv_ssl_err; unsigned long xv_err_queue; int xv_ssl_last_ret; _Bool xv_ssl_close_seen;
 long xv_sw_calls; const SSL *xv_sw_ssl; const void *xv_sw_buf; int xv_sw_num; int xv_sw_ret;
 long xv_sr_calls; const SSL *xv_sr_ssl; const void *xv_sr_buf; int xv_sr_num; int xv_sr_ret;
 long xv_x509_refs;
+long xv_peer_cert_calls, xv_verify_result_calls, xv_errstr_calls;   /* SSL_get1_peer_certificate / SSL_get_verify_result / X509_verify_cert_error_string */
 long xv_pending_calls; long xv_shutdown_calls; long xv_ssl_free_calls; const SSL *xv_ssl_free_ssl;
 
 #define XV_SSL_CALLS_MAX (1L << 40)
@@ -83,13 +86,15 @@ long xv_pending_calls; long xv_shutdown_calls; long xv_ssl_free_calls; const SSL
                             XV_SSL_CNT_OK(xv_x509_set_hostflags_calls) && XV_SSL_CNT_OK(xv_x509_nhosts) && XV_SSL_CNT_OK(xv_x509_host_resets) && \
                             XV_SSL_CNT_OK(xv_x509_add_calls) && XV_SSL_CNT_OK(xv_hs_calls) && XV_SSL_CNT_OK(xv_sw_calls) && XV_SSL_CNT_OK(xv_sr_calls) && \
                             XV_SSL_CNT_OK(xv_x509_refs) && XV_SSL_CNT_OK(xv_pending_calls) && XV_SSL_CNT_OK(xv_shutdown_calls) && \
-                            XV_SSL_CNT_OK(xv_ssl_free_calls) && XV_SSL_CNT_OK(xv_ssl_set_mode_calls))
+                            XV_SSL_CNT_OK(xv_ssl_free_calls) && XV_SSL_CNT_OK(xv_ssl_set_mode_calls) && \
+                            XV_SSL_CNT_OK(xv_peer_cert_calls) && XV_SSL_CNT_OK(xv_verify_result_calls) && XV_SSL_CNT_OK(xv_errstr_calls))
 
 #define XV_SSL_CONF_ASSIGNS xv_ssl_set_verify_calls, xv_ssl_set_verify_ssl, xv_ssl_set_verify_mode, xv_ssl_set_verify_cb, \
                             xv_get0_param_calls, xv_get0_param_ssl, xv_x509_flags, xv_x509_set_flags_calls
 #define XV_SSL_HOST_ASSIGNS xv_get0_param_calls, xv_get0_param_ssl, xv_x509_hostflags, xv_x509_set_hostflags_calls, \
                             xv_x509_nhosts, xv_x509_host_resets, xv_x509_add_calls, xv_x509_host_k
-#define XV_SSL_ERR_ASSIGNS xv_ssl_err, xv_err_queue, xv_ssl_last_ret
+#define XV_SSL_ERR_ASSIGNS xv_ssl_err, xv_err_queue, xv_ssl_last_ret, xv_ssl_close_seen
+#define XV_SSL_VERDICT_ASSIGNS xv_x509_refs, xv_peer_cert_calls, xv_verify_result_calls, xv_errstr_calls
 #define XV_SSL_HS_ASSIGNS xv_hs_calls, xv_hs_ssl, xv_hs_connect, xv_hs_ret, xv_ssl_hs_done, xv_ssl_peer_cert, xv_ssl_verify_result, XV_SSL_ERR_ASSIGNS
 #define XV_SSL_WRITE_ASSIGNS xv_sw_calls, xv_sw_ssl, xv_sw_buf, xv_sw_num, xv_sw_ret, XV_SSL_ERR_ASSIGNS
 #define XV_SSL_READ_ASSIGNS xv_sr_calls, xv_sr_ssl, xv_sr_buf, xv_sr_num, xv_sr_ret, XV_SSL_ERR_ASSIGNS
@@ -100,17 +105,17 @@ static inline void xv_ssl_havoc(void)
     xv_ssl_set_verify_calls = nondet_long(); xv_ssl_set_verify_ssl = (const SSL *)nondet_size_t(); xv_ssl_set_verify_mode = nondet_int();
     xv_ssl_set_verify_cb = 0;
     xv_get0_param_calls = nondet_long(); xv_get0_param_ssl = (const SSL *)nondet_size_t();
-    xv_x509_flags = (unsigned long)nondet_long(); xv_x509_set_flags_calls = nondet_long();
+    xv_x509_flags = (unsigned long)nondet_size_t(); xv_x509_set_flags_calls = nondet_long();
     xv_x509_hostflags = nondet_uint(); xv_x509_set_hostflags_calls = nondet_long();
     xv_x509_nhosts = nondet_long(); xv_x509_host_resets = nondet_long(); xv_x509_add_calls = nondet_long();
     xv_hk = nondet_long(); xv_x509_host_k = (const char *)nondet_size_t();
     xv_ssl_set_mode_calls = nondet_long(); xv_ssl_mode = nondet_long();
     xv_hs_calls = nondet_long(); xv_hs_ssl = (const SSL *)nondet_size_t(); xv_hs_connect = nondet_bool(); xv_hs_ret = nondet_int();
-    xv_ssl_hs_done = nondet_bool(); xv_ssl_peer_cert = nondet_bool(); xv_ssl_verify_result = nondet_long();
-    xv_ssl_err = nondet_int(); xv_err_queue = (unsigned long)nondet_long(); xv_ssl_last_ret = nondet_int();
+    xv_ssl_hs_done = nondet_bool(); xv_ssl_peer_cert = nondet_bool(); xv_ssl_verify_result = nondet_int();
+    xv_ssl_err = nondet_int(); xv_err_queue = (unsigned long)nondet_size_t(); xv_ssl_last_ret = nondet_int(); xv_ssl_close_seen = nondet_bool();
     xv_sw_calls = nondet_long(); xv_sw_ssl = (const SSL *)nondet_size_t(); xv_sw_buf = (const void *)nondet_size_t(); xv_sw_num = nondet_int(); xv_sw_ret = nondet_int();
     xv_sr_calls = nondet_long(); xv_sr_ssl = (const SSL *)nondet_size_t(); xv_sr_buf = (const void *)nondet_size_t(); xv_sr_num = nondet_int(); xv_sr_ret = nondet_int();
-    xv_x509_refs = nondet_long();
+    xv_x509_refs = nondet_long(); xv_peer_cert_calls = nondet_long(); xv_verify_result_calls = nondet_long(); xv_errstr_calls = nondet_long();
     xv_pending_calls = nondet_long(); xv_shutdown_calls = nondet_long(); xv_ssl_free_calls = nondet_long(); xv_ssl_free_ssl = (const SSL *)nondet_size_t();
 }
 
@@ -195,7 +200,7 @@ static void xv_ssl_fail(int ret, _Bool via_bio)
 {
     int e = nondet_int();
     __CPROVER_assume(e == SSL_ERROR_SSL || e == SSL_ERROR_WANT_READ || e == SSL_ERROR_WANT_WRITE || e == SSL_ERROR_SYSCALL || e == SSL_ERROR_ZERO_RETURN);
-    unsigned long q = (unsigned long)nondet_long();
+    unsigned long q = (unsigned long)nondet_size_t();
     if (e == SSL_ERROR_SSL)
         __CPROVER_assume(q != 0);
     int en = nondet_int();
@@ -204,15 +209,15 @@ static void xv_ssl_fail(int ret, _Bool via_bio)
         __CPROVER_assume(en != EAGAIN && en != EWOULDBLOCK);
     xv_errno = en;
     xv_ssl_err = e; xv_err_queue = q; xv_ssl_last_ret = ret;
-    if (e == SSL_ERROR_SSL || e == SSL_ERROR_ZERO_RETURN || (e == SSL_ERROR_SYSCALL && (q != 0 || en != EINPROGRESS)))
-        xv_lower_dead = 1;
+    /* the peer's close was seen: close_notify, or EOF/EPIPE from the transport underneath */
+    xv_ssl_close_seen = (e == SSL_ERROR_ZERO_RETURN || (e == SSL_ERROR_SYSCALL && q == 0 && via_bio && (en == 0 || en == EPIPE)));
 }
 static int xv_ssl_handshake(SSL *ssl, _Bool is_connect)
 {
     __CPROVER_assert(xv_ssl_set_verify_calls >= 1 && xv_ssl_set_verify_ssl == ssl, "TLS handshake entered only after SSL_set_verify() on this SSL");
     xv_hs_calls++;
     xv_hs_ssl = ssl; xv_hs_connect = is_connect;
-    xv_ssl_peer_cert = nondet_bool(); xv_ssl_verify_result = nondet_long();
+    xv_ssl_peer_cert = nondet_bool(); xv_ssl_verify_result = nondet_int();   /* A6 */
     int r = nondet_int();
     __CPROVER_assume(r >= -1 && r <= 1);
     xv_hs_ret = r;
@@ -240,13 +245,14 @@ unsigned long ERR_peek_error(void) { return xv_err_queue; }
 /* TRUSTED(OpenSSL) SSL_get1_peer_certificate: the peer's certificate (a new reference) or NULL */
 X509 *SSL_get1_peer_certificate(const SSL *s)
 {
+    xv_peer_cert_calls++;
     if (!xv_ssl_peer_cert)
         return NULL;
     xv_x509_refs++;
     return XV_X509;
 }
 /* TRUSTED(OpenSSL) SSL_get_verify_result: the verdict of certificate verification */
-long SSL_get_verify_result(const SSL *ssl) { return xv_ssl_verify_result; }
+long SSL_get_verify_result(const SSL *ssl) { xv_verify_result_calls++; return xv_ssl_verify_result; }
 /* TRUSTED(OpenSSL) X509_free: drops a reference */
 void X509_free(X509 *a)
 {
@@ -256,7 +262,7 @@ void X509_free(X509 *a)
     xv_x509_refs--;
 }
 /* TRUSTED(OpenSSL) X509_verify_cert_error_string: some static text */
-const char *X509_verify_cert_error_string(long n) { return "verification error"; }
+const char *X509_verify_cert_error_string(long n) { xv_errstr_calls++; return "verification error"; }
 
 /* TRUSTED(OpenSSL) SSL_write (A3, A4): accepts the first r bytes (1 <= r <= num) of buf into the plaintext stream, or fails */
 int SSL_write(SSL *ssl, const void *buf, int num)
@@ -269,10 +275,9 @@ int SSL_write(SSL *ssl, const void *buf, int num)
         /* ssl/ssl_lib.c: SSL_write(): ERR_raise(SSL_R_BAD_LENGTH); return -1 */
         r = -1;
         int en = nondet_int(); __CPROVER_assume(en >= 0); xv_errno = en;
-        xv_ssl_err = SSL_ERROR_SSL; xv_err_queue = 1; xv_ssl_last_ret = r; xv_lower_dead = 1;
+        xv_ssl_err = SSL_ERROR_SSL; xv_err_queue = 1; xv_ssl_last_ret = r; xv_ssl_close_seen = 0;
     } else if (num > 0 && r >= 1) {
         __CPROVER_assume(r <= num);
-        __CPROVER_assume(!xv_lower_dead);
         if (xv_k >= xv_tx_off && xv_k < xv_tx_off + r) {
             xv_tx_k = ((const uint8_t *)buf)[xv_k - xv_tx_off];
             xv_tx_k_set = 1;
@@ -284,7 +289,7 @@ int SSL_write(SSL *ssl, const void *buf, int num)
         if (num == 0 && nondet_bool()) {
             /* nothing to write: 0, no error queued, nothing wanted: SSL_get_error() says SYSCALL, errno untouched (A3) */
             r = 0;
-            xv_ssl_err = SSL_ERROR_SYSCALL; xv_err_queue = 0; xv_ssl_last_ret = r;
+            xv_ssl_err = SSL_ERROR_SYSCALL; xv_err_queue = 0; xv_ssl_last_ret = r; xv_ssl_close_seen = 0;
         } else
             xv_ssl_fail(r, 1);
     }
@@ -302,10 +307,10 @@ int SSL_read(SSL *ssl, void *buf, int num)
     if (num < 0) {
         r = -1;
         int en = nondet_int(); __CPROVER_assume(en >= 0); xv_errno = en;
-        xv_ssl_err = SSL_ERROR_SSL; xv_err_queue = 1; xv_ssl_last_ret = r; xv_lower_dead = 1;
+        xv_ssl_err = SSL_ERROR_SSL; xv_err_queue = 1; xv_ssl_last_ret = r; xv_ssl_close_seen = 0;
     } else if (num > 0 && r >= 1) {
         __CPROVER_assume(r <= num);
-        __CPROVER_assume(!xv_lower_dead && !xv_rx_eof);
+        __CPROVER_assume(!xv_rx_eof);
         __CPROVER_havoc_slice(buf, (size_t)r);
         if (xv_k >= xv_rx_off && xv_k < xv_rx_off + r)
             ((uint8_t *)buf)[xv_k - xv_rx_off] = xv_rx_k;
@@ -317,10 +322,10 @@ int SSL_read(SSL *ssl, void *buf, int num)
             /* ssl3_read_bytes(): `if (len == 0) return 0` once a record is there: 0 bytes "read", no error queued, nothing
              * wanted: SSL_get_error() says SYSCALL; the BIO may not have been entered: errno untouched (A3) */
             r = 0;
-            xv_ssl_err = SSL_ERROR_SYSCALL; xv_err_queue = 0; xv_ssl_last_ret = r;
+            xv_ssl_err = SSL_ERROR_SYSCALL; xv_err_queue = 0; xv_ssl_last_ret = r; xv_ssl_close_seen = 0;
         } else {
             xv_ssl_fail(r, 1);
-            if (xv_ssl_err == SSL_ERROR_ZERO_RETURN || (xv_ssl_err == SSL_ERROR_SYSCALL && xv_err_queue == 0 && (xv_errno == 0 || xv_errno == EPIPE)))
+            if (xv_ssl_close_seen)
                 xv_rx_eof = 1;
         }
     }
